@@ -4,7 +4,7 @@ import math
 
 from hypothesis import strategies as st
 
-from pbt.common import env, runner, snap, fresh as F, spec as S, gen as G
+from pbt.common import env, runner, snap, fresh as F, spec as S, gen as G, machine as M
 from pbt.props.c03 import hours_of, HOUR_NS
 
 env.import_efootprint()
@@ -65,6 +65,11 @@ def cases(draw):
         return {"spec": spec, "id_seed": draw(st.integers(0, 2 ** 20)), "tweak": "two_windows",
                 "pick": draw(st.integers(0, 10 ** 6)), "delta": 0}
     spec = draw(G.specs(fixed=0.0))
+    if draw(st.floats(0, 1)) < 0.25:
+        # the sizing rules on a model reached through edits (server type switched, storage duration changed, ...)
+        return {"spec": spec, "id_seed": draw(st.integers(0, 2 ** 20)), "tweak": "none",
+                "pick": draw(st.integers(0, 10 ** 6)), "delta": 0,
+                "history": draw(G.histories(spec, min_steps=1, max_steps=4))}
     return {"spec": spec, "id_seed": draw(st.integers(0, 2 ** 20)), "tweak": draw(st.sampled_from(TWEAKS)),
             "pick": draw(st.integers(0, 10 ** 6)), "delta": draw(st.sampled_from([-1, 0, 3]))}
 
@@ -112,6 +117,15 @@ def storage_reference(spec, objs, stn, base_tb=None):
 def check(case, ctx):
     spec = copy.deepcopy(case["spec"])
     labels = ["tweak=" + case["tweak"]]
+    live_objs = None
+    if case.get("history"):
+        quiet = type("Q", (), {"violation": lambda self, *a, **k: False})()
+        summary = M.run_history(case, quiet, compare_fresh=False, check_totals=False, check_undo=False)
+        if summary.get("live") is None or summary["status"] != "ok":
+            ctx.case(case, False, labels + ["history_" + summary["status"]])
+            return
+        live_objs, spec = summary["live"], copy.deepcopy(summary["final_spec"])
+        labels.append("after_history")
     comp = F.spec_components(spec)
     pick = case["pick"]
     # structural tweaks that do not need numbers
@@ -220,7 +234,8 @@ def check(case, ctx):
             elif mn < 0 and abs(mn) > 1e-12 * ref["scale"] and ref["has_delete"]:
                 expect_raise = None     # too close to zero to call
     # 3. the real model
-    objs, exc = F.build_case({"spec": spec, "id_seed": case["id_seed"] + 1})
+    objs, exc = (live_objs, None) if live_objs is not None else \
+        F.build_case({"spec": spec, "id_seed": case["id_seed"] + 1})
     final_case = dict(case, applied_spec=spec)
     nontrivial = bool(expect_raise) or any(r["short"] or (r["has_delete"] and r["needed"]) for r in refs.values()) \
         or case["tweak"].startswith("fixed")
